@@ -160,9 +160,18 @@ static void ref_split_init(void) {
     ref_split_cfg_make(&REF_SPLIT, 2, (const int[]){0, 1}, 0, 0, 1);
     /* split-full: 6 / 14 / 22 bits, 11 = external (+4210749), at least 2 bytes
      * ("never shrink" rule) */
+#ifdef VARINT_SPLIT_FULL_USE_MAXIMUM_RANGE
+    /* documented knob: the 2-byte external form is used too (grow-shrink-grow allowed) */
+    ref_split_cfg_make(&REF_SPLITFULL, 3, (const int[]){0, 1, 2}, 0, 0, 1);
+#else
     ref_split_cfg_make(&REF_SPLITFULL, 3, (const int[]){0, 1, 2}, 0, 0, 2);
+#endif
     /* split-full-no-zero: first level stores v-1 (1..64), then as split-full */
+#ifdef VARINT_SPLIT_FULL_NO_ZERO_USE_MAXIMUM_RANGE
+    ref_split_cfg_make(&REF_SPLITNZ, 3, (const int[]){0, 1, 2}, 1, 0, 1);
+#else
     ref_split_cfg_make(&REF_SPLITNZ, 3, (const int[]){0, 1, 2}, 1, 0, 2);
+#endif
     /* split-full-16: 14 / 22 / 30 bits, external at least 4 bytes */
     ref_split_cfg_make(&REF_SPLIT16, 3, (const int[]){1, 2, 3}, 0, 0, 4);
 }
